@@ -523,7 +523,7 @@ int main(int argc, char** argv)
     } else if (!strcmp(mode, "c10")) {
         /* bound functions: (a) translated Gen functions agree with the C functions, (b) exact-capacity calls for every buffered amount and both update kinds */
         int ncases = thorough ? SH(3000) : 300;
-        for (i = 0; i < (thorough ? SH(20000) : 3000); i++) {
+        for (i = 0; i < (thorough ? SH(100000) : 3000); i++) {
             LZ4F_preferences_t p = rand_prefs(0); size_t s = rndp(30) ? rndn(10) : rndp(50) ? rndn(300000) : (size_t)rnd() % (1ull << 33); int nul = rndp(8);
             if (rndp(5)) p.frameInfo.blockSizeID = (LZ4F_blockSizeID_t)rndn(10);
             genfunc_rec(1, (long long)s, nul ? -1LL : (long long)p.frameInfo.blockSizeID, p.frameInfo.blockChecksumFlag, p.frameInfo.contentChecksumFlag, p.autoFlush, (long long)LZ4F_compressBound(s, nul ? NULL : &p));
@@ -599,7 +599,7 @@ int main(int argc, char** argv)
     } else if (!strcmp(mode, "c19")) {
         linked_model_frames(data, thorough); indep_model_frames(data, thorough);
         /* context reuse: sessions that end normally, are abandoned, or fail; then a fresh frame must be valid and identical to a fresh context's */
-        int ncases = thorough ? SH(3000) : 200;
+        int ncases = thorough ? SH(9000) : 200;
         for (i = 0; i < ncases; i++) {
             size_t n = rndp(60) ? rndn(3000) : rndn(150000); LZ4F_preferences_t prefs; vec_t a, b; LZ4F_cctx* fresh; rec_t r; int sab = (int)rndn(5); int dk = DK_NONE; size_t dsz = 0;
             memset(&a, 0, sizeof a); memset(&b, 0, sizeof b);
